@@ -1,3 +1,4 @@
 SPECIFICATION Spec
 INVARIANTS TypeOK P1_Running P1_Drain P1_ConnOK P1_BeforeStop P2_Quiet P2_NoLate P2_Refuse P3_TimeoutOnlyIdle P4_NoExit P_Udp
+SYMMETRY ConnSym
 CHECK_DEADLOCK FALSE
